@@ -664,7 +664,7 @@ func (p *Prog) bindRange(f *Func, s ast.Stmt, st *pstate) {
 			v = o
 		}
 		if v != nil {
-			st.vars[v] = mk(op, x).withType(v.Type())
+			st.vars[v] = simplify(mk(op, x).withType(v.Type()))
 		}
 	}
 	if rs.Key != nil {
@@ -672,7 +672,123 @@ func (p *Prog) bindRange(f *Func, s ast.Stmt, st *pstate) {
 	}
 	if rs.Value != nil {
 		bind(rs.Value, "elem")
+		// a local slice filled by a function literal that a scanning function calls per record (gathered first,
+		// handled afterwards): its element is what the literal appends for the scanned record
+		if id, ok := ast.Unparen(rs.X).(*ast.Ident); ok {
+			if v, ok := info.Uses[id].(*types.Var); ok {
+				if el := p.capturedElem(f, v, st); el != nil {
+					if vid, ok := rs.Value.(*ast.Ident); ok && vid.Name != "_" {
+						var lv *types.Var
+						if o, ok := info.Defs[vid].(*types.Var); ok {
+							lv = o
+						} else if o, ok := info.Uses[vid].(*types.Var); ok {
+							lv = o
+						}
+						if lv != nil {
+							st.vars[lv] = el.withType(lv.Type())
+						}
+					}
+				}
+			}
+		}
 	}
+}
+
+// capturedElem: v is a local slice of f that is appended to in exactly one place — inside a function literal of f
+// passed to a module function g that invokes it per scanned record. The element is the appended expression with the
+// literal's parameters replaced by what g hands to it on this call's arguments.
+func (p *Prog) capturedElem(f *Func, v *types.Var, st *pstate) *Term {
+	if f.Body == nil {
+		return nil
+	}
+	if _, isSlice := v.Type().Underlying().(*types.Slice); !isSlice {
+		return nil
+	}
+	info := f.Pkg.TypesInfo
+	var lit *ast.FuncLit
+	var elemExpr ast.Expr
+	nAppend := 0
+	var inLit func(n ast.Node, cur *ast.FuncLit)
+	inLit = func(n ast.Node, cur *ast.FuncLit) {
+		ast.Inspect(n, func(x ast.Node) bool {
+			switch y := x.(type) {
+			case *ast.FuncLit:
+				if y != cur {
+					inLit(y.Body, y)
+					return false
+				}
+			case *ast.AssignStmt:
+				if len(y.Lhs) == 1 && len(y.Rhs) == 1 {
+					if lid, ok := y.Lhs[0].(*ast.Ident); ok && info.Uses[lid] == v {
+						nAppend++
+						if ce, ok := y.Rhs[0].(*ast.CallExpr); ok && len(ce.Args) == 2 && !ce.Ellipsis.IsValid() {
+							if fid, ok := ce.Fun.(*ast.Ident); ok && fid.Name == "append" {
+								if b, ok := ce.Args[0].(*ast.Ident); ok && info.Uses[b] == v {
+									lit, elemExpr = cur, ce.Args[1]
+								}
+							}
+						}
+					}
+				}
+			}
+			return true
+		})
+	}
+	inLit(f.Body, nil)
+	if nAppend != 1 || lit == nil || elemExpr == nil {
+		return nil
+	}
+	lf := p.FuncByLit[lit]
+	if lf == nil {
+		return nil
+	}
+	// the call that receives the literal
+	var call *ast.CallExpr
+	argIdx := -1
+	ast.Inspect(f.Body, func(x ast.Node) bool {
+		if ce, ok := x.(*ast.CallExpr); ok && call == nil {
+			for i, a := range ce.Args {
+				if ast.Unparen(a) == ast.Expr(lit) {
+					call, argIdx = ce, i
+				}
+			}
+		}
+		return call == nil
+	})
+	if call == nil {
+		return nil
+	}
+	fo, _ := typeutil.Callee(info, call).(*types.Func)
+	g := p.FuncByObj[fo]
+	if g == nil || g == f || g.Body == nil || p.pathsBusy[g] {
+		return nil
+	}
+	m := map[string]*Term{}
+	q := &evaluator{p: p, f: f, st: st, busy: map[*types.Var]bool{}, quiet: true}
+	for i, a := range call.Args {
+		if i != argIdx {
+			m[fmt.Sprintf("P%d", i)] = q.eval(a)
+		}
+	}
+	var handed []*Term
+	for _, e := range p.SummaryOf(g).Effs {
+		if e.Kind == "dyn" && len(e.Args) >= 1 && e.Args[0].IsAt(fmt.Sprintf("P%d", argIdx)) && handed == nil {
+			for _, a := range e.Args[1:] {
+				handed = append(handed, a.Subst(m))
+			}
+		}
+	}
+	if handed == nil {
+		return nil
+	}
+	el := p.expandRetSummaries(p.fiEval(lf).eval(elemExpr))
+	pm := map[string]*Term{}
+	for i := range lf.Params {
+		if i < len(handed) {
+			pm[fmt.Sprintf("P%d", i)] = handed[i]
+		}
+	}
+	return el.Subst(pm)
 }
 
 // bindIndexLoop: in the body of "for i := 0; i < len(x); i++" the counter is the position under
@@ -1115,12 +1231,31 @@ func (p *Prog) resEquations(g *Func) []*Term {
 			if k == ei || dead[k] {
 				continue
 			}
-			pass := r.Op == "" && strings.HasPrefix(r.At, "P")
-			if r.Op == "res" && len(r.A) == 2 {
-				if h := p.FuncNamed(r.A[1].Op); h != nil && h != g {
-					pass = true
+			var passTerm func(t *Term, depth int) bool
+			passTerm = func(t *Term, depth int) bool {
+				if t == nil || depth > 3 {
+					return false
 				}
+				switch {
+				case t.Op == "" && strings.HasPrefix(t.At, "P"):
+					return true
+				case t.Op == "res" && len(t.A) == 2:
+					h := p.FuncNamed(t.A[1].Op)
+					return h != nil && h != g
+				case strings.HasPrefix(t.Op, ".") && len(t.A) == 1 && depth > 0:
+					return passTerm(t.A[0], depth+1)
+				case t.Op == "lit" && len(t.A) >= 2 && depth == 0 && namedStruct(t.Typ) != "":
+					// a record assembled from such terms (a plan, a result struct)
+					for _, kv := range t.A[1:] {
+						if len(kv.A) != 1 || !passTerm(kv.A[0], depth+1) {
+							return false
+						}
+					}
+					return true
+				}
+				return false
 			}
+			pass := passTerm(r, 0)
 			if !pass || (eq[k] != nil && !eq[k].Eq(r)) {
 				dead[k], eq[k] = true, nil
 				continue
@@ -1451,6 +1586,27 @@ func decideFact(f Fact, facts FactSet) int {
 			}
 		}
 	}
+	// x == 0 versus 0 < x: contradictory; for an unsigned x each is the other's negation
+	if t.Op == "<" && len(t.A) == 2 && t.A[0].IsAt("#0") {
+		x := t.A[1]
+		z := Fact{T: mk("==", x, atom("#0"))}
+		if facts.Has(z) {
+			return res(false)
+		}
+		if facts.Has(z.Not()) && isUnsigned(x.Typ) {
+			return res(true)
+		}
+	}
+	if t.Op == "==" && len(t.A) == 2 && t.A[1].IsAt("#0") {
+		x := t.A[0]
+		pos := Fact{T: mk("<", atom("#0"), x)}
+		if facts.Has(pos) {
+			return res(false)
+		}
+		if facts.Has(pos.Not()) && isUnsigned(x.Typ) {
+			return res(true)
+		}
+	}
 	// integer comparisons decided by constants, and by a range index being non-negative
 	if t.Op == "<" && len(t.A) == 2 {
 		a, b := stripConv(t.A[0]), stripConv(t.A[1])
@@ -1561,11 +1717,11 @@ func (p *Prog) retSummary(g *Func) *Term {
 		return nil
 	}
 	p.retMemo[g] = nil
-	if !g.isHandWritten() || len(g.Res) != 1 || namedStruct(g.Res[0].Type()) == "" || g.pkgName() != "keeper" {
+	if !g.isHandWritten() || len(g.Res) != 1 || namedStruct(g.Res[0].Type()) == "" || (g.pkgName() != "keeper" && g.pkgName() != "types") {
 		return nil
 	}
-	// only helpers that take the same struct by value and return it
-	takes := false
+	// only helpers that take the same struct by value (as a parameter or as their receiver) and return it
+	takes := g.Recv != nil && types.Identical(g.Recv.Type(), g.Res[0].Type())
 	for _, pr := range g.Params {
 		if types.Identical(pr.Type(), g.Res[0].Type()) {
 			takes = true
@@ -1591,4 +1747,30 @@ func (p *Prog) retSummary(g *Func) *Term {
 	// must be expressed over parameters only (no locals of g)
 	p.retMemo[g] = []*Term{common}
 	return common
+}
+
+// expandRetSummaries: calls of helpers that hand back the record they were given with some fields updated are
+// replaced by that updated record.
+func (p *Prog) expandRetSummaries(t *Term) *Term {
+	if t == nil || t.Op == "" {
+		return t
+	}
+	changed := false
+	na := make([]*Term, len(t.A))
+	for i, a := range t.A {
+		na[i] = p.expandRetSummaries(a)
+		if na[i] != a {
+			changed = true
+		}
+	}
+	nt := t
+	if changed {
+		nt = simplify(&Term{Op: t.Op, A: na, Typ: t.Typ, Obj: t.Obj, Pos: t.Pos})
+	}
+	if g := p.FuncNamed(nt.Op); g != nil && g.isHandWritten() && g.Body != nil && !p.pathsBusy[g] {
+		if rt := p.retSummary(g); rt != nil {
+			return rt.Subst(argMap(g, nt))
+		}
+	}
+	return nt
 }
